@@ -41,7 +41,7 @@ def gen_config(kind, rng: random.Random, thorough=False):
                 'align': rng.random() < 0.5, 'batch': rng.choice([1, 1, 2]), 'channels': rng.choice([1, 1, 2]), 'seed': seed}
     if kind == 'sliceproj':
         return {'kind': kind, 'n': rng.choice([4, 5]), 'fwhm': rng.choice([1.0, 2.0, 3.0]), 'generic': rng.random() < 0.5, 'optimize_for': rng.choice(['forward', 'adjoint', 'both']),
-                'batch': rng.choice([[], [], [2], [1, 2], [3]]), 'seed': seed}
+                'batch': rng.choice([[], [], [2], [1, 2], [3], [2, 3], [3, 2]]), 'seed': seed}
     if kind == 'pca':
         return {'kind': kind, 'coils': rng.randint(2, 5), 'n': rng.randint(1, 3), 'samples': rng.randint(6, 12), 'lead': rng.choice([[], [], [2], [2, 1]]), 'seed': seed}
     if kind == 'einsum_rule':
@@ -64,7 +64,7 @@ def force_batch(cfg, rng: random.Random):
     elif k == 'gridsample':
         cfg['batch'], cfg['channels'] = 2, rng.choice([1, 2])
     elif k == 'sliceproj':
-        cfg['batch'] = rng.choice([[2], [3], [2, 2]])
+        cfg['batch'] = rng.choice([[2, 3], [3, 2], [2, 3], [2], [2, 2]])  # several volume batch dimensions of different sizes
     elif k == 'pca':
         cfg['lead'] = rng.choice([[2], [2, 1]])
     elif k == 'fft' and len(cfg['shape']) == len(cfg['dim']):
